@@ -31,6 +31,16 @@ fn watchdog() -> Duration {
     if EXPIRIES.load(std::sync::atomic::Ordering::Relaxed) >= 4 { WATCHDOG / 10 } else { WATCHDOG }
 }
 
+static GRACE_MS: std::sync::atomic::AtomicU64 = std::sync::atomic::AtomicU64::new(30);
+
+pub fn set_grace_ms(ms: u64) {
+    GRACE_MS.store(ms, std::sync::atomic::Ordering::Relaxed);
+}
+
+pub fn grace() -> Duration {
+    Duration::from_millis(GRACE_MS.load(std::sync::atomic::Ordering::Relaxed))
+}
+
 pub fn expiries() -> u32 {
     EXPIRIES.load(std::sync::atomic::Ordering::Relaxed)
 }
@@ -73,6 +83,14 @@ pub fn exe_path() -> String {
     .clone()
 }
 
+/// the program spawned as the child: the lean `e_c20_child` next to this binary if it exists,
+/// else this binary itself in `--child` mode
+pub fn child_exe() -> String {
+    let me = PathBuf::from(exe_path());
+    let lean = me.with_file_name("e_c20_child");
+    if lean.exists() { lean.to_string_lossy().to_string() } else { exe_path() }
+}
+
 pub fn tmp_root() -> PathBuf {
     let base = std::env::var_os("TMPDIR").map(PathBuf::from).unwrap_or_else(|| PathBuf::from("/tmp"));
     base.join(format!("e_c20-{}", std::process::id()))
@@ -90,11 +108,12 @@ pub struct Worker {
     req_tx: Sender<Req>,
     resp_rx: Receiver<Resp>,
     handle: Option<std::thread::JoinHandle<()>>,
+    seq: u64,
 }
 
 impl Worker {
     pub fn new(idx: usize) -> Worker {
-        let exe = exe_path();
+        let exe = child_exe();
         let dir = tmp_root().join(format!("w{idx}"));
         std::fs::create_dir_all(&dir).unwrap_or_else(|e| vcore::machinery_error(&format!("mkdir {dir:?}: {e}")));
         let sock = dir.join("ctl.sock");
@@ -116,7 +135,29 @@ impl Worker {
             req_tx,
             resp_rx,
             handle: Some(handle),
+            seq: 0,
         }
+    }
+
+    /// A new subject thread for every execution: whatever the kernel still owes the previous
+    /// runtime's thread (io_uring task work of cancelled operations) must not reach this one.
+    fn fresh_subject(&mut self) {
+        let _ = self.req_tx.send(Req::Quit);
+        if let Some(h) = self.handle.take() {
+            if h.is_finished() {
+                let _ = h.join();
+            }
+        }
+        let (req_tx, req_rx) = channel();
+        let (resp_tx, resp_rx) = channel();
+        self.seq += 1;
+        let handle = std::thread::Builder::new()
+            .name(format!("subject-{}", self.seq))
+            .spawn(move || subject::subject_main(req_rx, resp_tx))
+            .unwrap();
+        self.req_tx = req_tx;
+        self.resp_rx = resp_rx;
+        self.handle = Some(handle);
     }
 
     fn accept(&self) -> Result<UnixStream, String> {
@@ -250,6 +291,8 @@ enum WaitSt {
 
 pub struct ExecResult {
     pub sig: String,
+    /// all observation classes incl. the epilogue's (for the reach counters)
+    pub tokens: Vec<String>,
     pub vios: Vec<(String, String)>,
     pub steps: u64,
     pub hist: Vec<String>,
@@ -279,6 +322,10 @@ struct Run<'a> {
     counters: Vec<&'static str>,
     /// the harness had to kill the child to get the runtime thread back: stop judging
     poisoned: bool,
+    /// index into `sig` where the epilogue starts
+    epi_at: usize,
+    /// a rescue (child made to drain stdin while the runtime thread sat in write(2)) happened
+    rescued: bool,
 }
 
 /// If the thread sleeps inside a system call: (syscall number, first argument).
@@ -422,6 +469,7 @@ impl<'a> Run<'a> {
                         }
                     }
                     rescued += 1;
+                    self.rescued = true;
                     if self.kid.alive {
                         // the write in flight is now partly in the pipe
                         if self.in_pending.is_none() {
@@ -721,6 +769,19 @@ impl<'a> Run<'a> {
         if !self.in_epilogue {
             self.sig.push(format!("H:{}", w.join("+")));
         }
+        // negative observation: a pending wait must stay pending while the child lives. Its completion
+        // would come from another thread (blocking pool) at a time the harness does not control, so give
+        // it a fixed grace period; too short a grace can only miss a bug, never raise a false alarm.
+        if self.wait == WaitSt::Pending && !self.dead && !self.in_epilogue && !self.plan.output {
+            std::thread::sleep(grace());
+            let r = self.call(Req::Harvest { expect: [false; 4], watchdog: Duration::ZERO }, "harvest")?;
+            if let Resp::Harvest { woken, .. } = r {
+                if woken[SLOT_WAIT] {
+                    self.note("  (wait future woken while the child is alive: polling it)".into());
+                    self.do_wait()?;
+                }
+            }
+        }
         if unsettled {
             self.vio("harvest:unsettled", format!("the runtime did not become quiescent within {rounds} zero-timeout rounds"));
         }
@@ -760,7 +821,11 @@ impl<'a> Run<'a> {
                         self.kid.done[s],
                         self.kid.want[s]
                     ));
-                    self.sig.push(format!("C{}:{}", Self::stream_name(s), if self.kid.done[s] == self.kid.want[s] { "all" } else { "part" }));
+                    // with an io_uring read already in flight the kernel drains the pipe concurrently with the
+                    // child's write: how much fits at once is then a matter of timing, not of the plan
+                    let racing = self.st[s].pending && self.plan.drv == subject::Drv::IoUring;
+                    let class = if racing { "inflight" } else if self.kid.done[s] == self.kid.want[s] { "all" } else { "part" };
+                    self.sig.push(format!("C{}:{class}", Self::stream_name(s)));
                 }
             }
             Step::ChildRead { n } => {
@@ -769,7 +834,9 @@ impl<'a> Run<'a> {
                     self.kid_cmd(&format!("R {n}"))?;
                     self.note(format!("ChildReadIn({n}) -> got {} (total {}, eof {})", self.kid.in_total - before, self.kid.in_total, self.kid.in_eof));
                     let got = self.kid.in_total - before;
-                    self.sig.push(format!("CI:{}{}", if got == 0 { "0" } else if got == n as u64 { "full" } else { "short" }, if self.kid.in_eof { "+eof" } else { "" }));
+                    let racing = (self.in_pending.is_some() && self.plan.drv == subject::Drv::IoUring) || self.rescued;
+                    let class = if racing { "inflight" } else if got == 0 { "0" } else if got == n as u64 { "full" } else { "short" };
+                    self.sig.push(format!("CI:{class}{}", if self.kid.in_eof { "+eof" } else { "" }));
                 }
             }
             Step::ChildClose { stream } => {
@@ -827,6 +894,7 @@ impl<'a> Run<'a> {
     /// obtain the status. Uses the same steps and the same oracle as the enumerated part.
     fn epilogue(&mut self) -> R<()> {
         self.in_epilogue = true;
+        self.epi_at = self.sig.len();
         self.note("-- epilogue --".into());
         let chunk = self.plan.chunk;
         // 1. stdin: complete the write in flight, close, let the child read to EOF
@@ -982,9 +1050,10 @@ impl<'a> Run<'a> {
 
 /// Execute one plan from a fresh runtime and a fresh child.
 pub fn execute(w: &mut Worker, plan: &Plan) -> ExecResult {
-    let mut res = ExecResult { sig: String::new(), vios: vec![], steps: 0, hist: vec![], machinery: None, counters: vec![] };
+    let mut res = ExecResult { sig: String::new(), tokens: vec![], vios: vec![], steps: 0, hist: vec![], machinery: None, counters: vec![] };
     let t0 = Instant::now();
     let timing = std::env::var_os("C20_TIMING_EXEC").is_some();
+    w.fresh_subject();
     if w.req_tx.send(Req::Begin { drv: plan.drv, exe: w.exe.clone(), sock: w.sock_path.clone(), keep_out: plan.output }).is_err() {
         res.machinery = Some("subject thread is gone".into());
         return res;
@@ -1065,6 +1134,8 @@ pub fn execute(w: &mut Worker, plan: &Plan) -> ExecResult {
         in_epilogue: false,
         counters: vec![],
         poisoned: false,
+        epi_at: usize::MAX,
+        rescued: false,
     };
     let mut r: R<()> = Ok(());
     for st in plan.steps.iter() {
@@ -1087,7 +1158,14 @@ pub fn execute(w: &mut Worker, plan: &Plan) -> ExecResult {
                 run.vio(&format!("read-{nm}:total"), format!("{a} bytes read in total, the child wrote {b}"));
             }
         }
-        run.sig.push(format!("end:{}", run.plan.mode.name()));
+        run.sig.push(format!(
+            "end:{} out={} err={} in={}/{}",
+            run.plan.mode.name(),
+            run.st[0].read,
+            run.st[1].read,
+            run.kid.in_total,
+            run.in_acked
+        ));
     }
     // teardown
     if run.kid.alive {
@@ -1098,7 +1176,17 @@ pub fn execute(w: &mut Worker, plan: &Plan) -> ExecResult {
         && matches!(run.w.resp_rx.recv_timeout(Duration::from_secs(20)), Ok(Resp::Ended));
     run.kid.reap();
     if timing { eprintln!("t end {:?}", t0.elapsed()); }
-    res.sig = run.sig.join(" ");
+    // the outcome class of an execution: what the enumerated steps observed + the final totals (the
+    // epilogue's intermediate observations follow from them)
+    let cut = run.epi_at.min(run.sig.len());
+    let mut sig: Vec<String> = run.sig[..cut].to_vec();
+    if let Some(last) = run.sig.last() {
+        if last.starts_with("end:") && cut < run.sig.len() {
+            sig.push(last.clone());
+        }
+    }
+    res.sig = sig.join(" ");
+    res.tokens = std::mem::take(&mut run.sig);
     res.vios = std::mem::take(&mut run.vios);
     res.steps = run.steps;
     res.hist = std::mem::take(&mut run.hist);
